@@ -39,7 +39,12 @@ def _observe(job):
         mixed = np.asarray(m.cumulative_distribution(mixed_in.copy()), dtype=float)[2:-2]
         zeros_first = np.vstack([np.array([[0.0, 0.0]]), sub])
         zf = np.asarray(m.cumulative_distribution(zeros_first.copy()), dtype=float)[1:]
-    for arr in (rev, mixed, zf):
+    with np.errstate(all='ignore'):
+        wide = np.zeros((len(sub), 5))
+        wide[:, 1], wide[:, 3] = sub[:, 0], sub[:, 1]
+        strided = np.asarray(m.cumulative_distribution(wide[:, 1::2]), dtype=float)              # a strided view
+        fortran = np.asarray(m.cumulative_distribution(np.asfortranarray(sub.copy())), dtype=float)   # column-major memory
+    for arr in (rev, mixed, zf, strided, fortran):
         f = O.fx(arr)
         for j, i in enumerate(idx):
             rowwise.append({'a': int(big[i]), 'b': int(f[j])})
